@@ -526,10 +526,154 @@ impl Property for Valid {
     }
 }
 
+// ---------------------------------------------------------------------------
+// below the generated `help` subcommand
+
+/// `prog help [sub...] <TAB>`: the level reached is the name-only copy of the tree that hangs below the generated
+/// `help` subcommand. Which subcommands are hidden is read from the description, not from that copy.
+#[derive(Serialize, Deserialize, Hash, Clone, Debug)]
+pub struct HelpTreeCase {
+    pub spec: CmdSpec,
+    /// real subcommand names after `help`
+    pub path: Vec<String>,
+    pub word: String,
+}
+
+pub struct HelpTree;
+
+impl Property for HelpTree {
+    type Case = HelpTreeCase;
+    fn name(&self) -> &'static str {
+        "engine-below-help"
+    }
+    fn rule(&self) -> String {
+        "broad command trees that keep the generated help subcommand, hidden subcommands sprinkled in x a path of real subcommand \
+         names after `help` x a word under the cursor (empty, or a prefix of a subcommand name of that level). Oracle: no panic; \
+         every candidate is the name of a subcommand of the level the path names (or `help` directly below `help`) and extends \
+         the word; every visible subcommand whose name extends the word is offered; hidden ones (per the description) only when \
+         no visible one is. non-trivial = the level has a hidden and a visible subcommand extending the word; distinct = \
+         distinct (spec, path, word)"
+            .into()
+    }
+    fn budget(&self, tier: Tier) -> Budget {
+        Budget { cases: tier.pick(100_000, 2_000_000), tape_len: 3500 }
+    }
+    fn decode(&self, t: &mut Tape<'_>) -> HelpTreeCase {
+        let opts = GenOpts {
+            relations: false,
+            hyphen_values: false,
+            exotic_settings: false,
+            ignore_errors: false,
+            external: false,
+            flag_subcommands: false,
+            globals: false,
+            env: false,
+            help_version_actions: false,
+            ..GenOpts::default()
+        };
+        let mut spec = gen_broad(t, &opts);
+        fn prep(c: &mut CmdSpec, t: &mut Tape<'_>) {
+            c.settings.disable_help_subcommand = false;
+            for s in &mut c.subs {
+                s.hide = t.chance(1, 3);
+                prep(s, t);
+            }
+        }
+        prep(&mut spec, t);
+        spec.settings.no_binary_name = false;
+        spec.settings.multicall = false;
+        let mut path = Vec::new();
+        let mut level: &CmdSpec = &spec;
+        while !level.subs.is_empty() && t.chance(1, 2) {
+            let sc = &level.subs[t.choose(level.subs.len())];
+            path.push(sc.name.clone());
+            level = sc;
+        }
+        let word = if level.subs.is_empty() || t.chance(1, 2) {
+            String::new()
+        } else {
+            let n = &level.subs[t.choose(level.subs.len())].name;
+            let k = t.range(1, n.chars().count());
+            n.chars().take(k).collect()
+        };
+        HelpTreeCase { spec, path, word }
+    }
+    fn run(&self, case: &HelpTreeCase, ctx: &mut Ctx) -> Verdict {
+        let cmd = match build_checked(&case.spec) {
+            Built::Ok(c) => c,
+            Built::Invalid(_) => return Verdict::Discard("invalid-config"),
+            Built::Panic(p) => return Verdict::Fail(Failure::from_panic(&p)),
+        };
+        if case.spec.subs.is_empty() || case.spec.subs.iter().any(|s| s.name == "help") {
+            return Verdict::Discard("no-generated-help-subcommand");
+        }
+        let mut level: &CmdSpec = &case.spec;
+        for n in &case.path {
+            match level.subs.iter().find(|s| s.name == *n) {
+                Some(s) => level = s,
+                None => return Verdict::Discard("path-not-in-tree"),
+            }
+        }
+        let mut argv: Vec<Vec<u8>> = vec![b"prog".to_vec(), b"help".to_vec()];
+        argv.extend(case.path.iter().map(|s| s.as_bytes().to_vec()));
+        argv.push(case.word.as_bytes().to_vec());
+        let index = argv.len() - 1;
+        let cands = match run_complete(&cmd, &argv, index) {
+            Err(p) => return Verdict::Fail(Failure::from_panic(&p)),
+            Ok(Err(e)) => return Verdict::fail("engine:below-help:no-completion", format!("{:?} {:?}: engine returned {e:?}", case.path, case.word)),
+            Ok(Ok(c)) => c,
+        };
+        let w = case.word.as_str();
+        let show = || format!("prog help {:?} word {:?}: candidates {:?}", case.path, w, cands.iter().map(|c| &c.0).collect::<Vec<_>>());
+        let mut visible_offered = false;
+        let mut hidden_offered: Vec<String> = Vec::new();
+        for (value, hide, _) in &cands {
+            ensure!(value.starts_with(w), "engine:below-help:candidate-does-not-extend-word", "{}: {:?}", show(), value);
+            if case.path.is_empty() && value == "help" {
+                visible_offered = true;
+                continue;
+            }
+            let Some(sc) = level.subs.iter().find(|s| s.name == *value) else {
+                return Verdict::fail("engine:below-help:candidate-names-nothing", format!("{}: {:?} is no subcommand of that level", show(), value));
+            };
+            if sc.hide || *hide {
+                hidden_offered.push(value.clone());
+            } else {
+                visible_offered = true;
+            }
+        }
+        let mut visible_match = false;
+        for sc in level.subs.iter().filter(|s| !s.hide && s.name.starts_with(w)) {
+            visible_match = true;
+            ensure!(
+                cands.iter().any(|c| c.0 == sc.name),
+                "engine:below-help:visible-subcommand-not-offered",
+                "{}: {:?} is visible and extends the word",
+                show(),
+                sc.name
+            );
+        }
+        if visible_match || visible_offered {
+            ensure!(
+                hidden_offered.is_empty(),
+                "engine:below-help:hidden-offered-beside-visible",
+                "{}: hidden subcommands {:?} offered although visible ones match",
+                show(),
+                hidden_offered
+            );
+        }
+        if visible_match && level.subs.iter().any(|s| s.hide && s.name.starts_with(w)) {
+            ctx.nontrivial();
+        }
+        ctx.label(if case.path.is_empty() { "directly-below-help" } else { "deeper-below-help" });
+        Verdict::Pass
+    }
+}
+
 pub fn check() -> Check {
     Check {
         id: "C18",
-        parts: vec![Box::new(Gen(Total)), Box::new(Gen(Valid))],
+        parts: vec![Box::new(Gen(Total)), Box::new(Gen(Valid)), Box::new(Gen(HelpTree))],
         assumptions: vec![
             "current_dir = None and no path value hints: the file system is never consulted".into(),
             "part B judges only points where a new argument may start (prefix of complete tokens, no pending option, no `--`); candidate \
